@@ -130,6 +130,8 @@ def run(ctx):
     w = vlib.run_tlc(ctx, "Decomp", "Decomp_f12.cfg", workers=1, timeout=600, xmx="4g")
     ctx.notes.append("Decomp_f12.cfg: the design-level witness of finding F12 is %s by TLC" % ("reproduced" if "F12Unreachable" in w.violated else "NOT reproduced"))
     scns = scenarios(ctx)
+    import drift
+    drift.with_steps(scns, every=max(1, -(-len(scns) // (500 if ctx.quick else 6000))))
     exe = vlib.build(ctx, "alloc", ["rec"])["rec"]
     files = streams.run_rec(ctx, exe, scns, "c07", timeout=1500)
     execs, events, viols = streams.judge_obs(ctx, files, PROPS)
@@ -143,7 +145,9 @@ def run(ctx):
             continue                      # marker / message-length clauses belong to C06
         keep.append(v)
     ctx.violations += keep
+    acc = drift.check(ctx, files)
     vlib.finish(ctx, "exploration", {
+        "model_acceptance": acc,
         "evaluations": execs, "distinct_nontrivial": len({s.text().split("\n", 1)[1][:6000] for s in scns}), "events_judged": events, "traces_validated_against_impl": execs,
         "states": mc.distinct, "transitions": mc.generated,
         "rule": "payloads {empty, 1 byte, text, 8191/8192/8193 patterned bytes, 3000 random bytes%s} x codings {gzip, x-gzip, raw deflate, zlib deflate, LZMA-alone} x framings {C-L, chunked, close}; "
